@@ -242,6 +242,8 @@ static void groth_systems(World &W, const Args &a) {
 			// the generators (and h) of the outer commitment object are "in use" only in the non-interactive hash chain;
 			// the commitments themselves are verified with the copy held by the SKC sub-argument (skc.com.*)
 			if (ni) { S->knobs.push_back(Knob{"com.h", vb->com->h, 'g'}); for (size_t i = 0; i < n; i++) S->knobs.push_back(Knob{"com.g" + std::to_string(i), vb->com->g[i], 'g'}); }
+			// since 25cc964 these responses must be in [0,q) (f_i of the outer argument in (0,q)): a negative representative is refused
+			S->strict = {"f", "Z", "skc_f", "skc_z", "skc_fD", "skc_zD"};
 			S->label = [n, ni](size_t i, size_t tot) {
 				std::vector<std::string> L = {"c", "cd", "Ed", "Ed"};
 				auto rep = [&](const char *x, size_t k) { for (size_t j = 0; j < k; j++) L.push_back(x); };
@@ -303,6 +305,7 @@ static void pedersen_systems(World &W, const Args &a) {
 	// q enters an opening only through the range check r < q; it is not a knob here (an equation modulo p cannot bind it)
 	S->knobs.push_back(Knob{"p", com->p, 'p'}); S->knobs.push_back(Knob{"h", com->h, 'g'});
 	for (size_t i = 0; i < n; i++) S->knobs.push_back(Knob{"g" + std::to_string(i), com->g[i], 'g'});
+	S->strict = {"r"};   // since 25cc964: 0 <= r < q
 	S->label = [](size_t i, size_t) { return i == 0 ? std::string("c") : i == 1 ? std::string("r") : std::string("m"); };
 	emit(S, a, a.thorough() ? 4 : 2);
 }
